@@ -185,20 +185,27 @@ func (p PubSubBackend[Result]) ListenForNotifications(
 			case <-ctx.Done():
 				verifhook.At("requestreply.listen.ctx_done", string(params.OperationID))
 				verifhook.At("requestreply.listen.before_send", string(params.OperationID), "timeout")
-				replyChan <- Reply[Result]{
+				// non-blocking: the caller may have stopped reading with a reply still in the buffer
+				select {
+				case replyChan <- Reply[Result]{
 					Error: ReplyTimeoutError{time.Since(start), ctx.Err()},
+				}:
+					verifhook.At("requestreply.listen.sent", string(params.OperationID), "timeout")
+				default:
 				}
-				verifhook.At("requestreply.listen.sent", string(params.OperationID), "timeout")
 				return
 			case notifyMsg, ok := <-notifyMsgs:
 				if !ok {
 					// subscriber is closed
 					verifhook.At("requestreply.listen.sub_closed", string(params.OperationID))
 					verifhook.At("requestreply.listen.before_send", string(params.OperationID), "subclosed")
-					replyChan <- Reply[Result]{
+					select {
+					case replyChan <- Reply[Result]{
 						Error: ReplyTimeoutError{time.Since(start), fmt.Errorf("subscriber closed")},
+					}:
+						verifhook.At("requestreply.listen.sent", string(params.OperationID), "subclosed")
+					default:
 					}
-					verifhook.At("requestreply.listen.sent", string(params.OperationID), "subclosed")
 					return
 				}
 
@@ -206,18 +213,25 @@ func (p PubSubBackend[Result]) ListenForNotifications(
 				resp, ok, unmarshalErr := p.handleNotifyMsg(notifyMsg, string(params.OperationID), p.marshaler)
 				if unmarshalErr != nil {
 					verifhook.At("requestreply.listen.before_send", string(params.OperationID), "unmarshal")
-					replyChan <- Reply[Result]{
+					select {
+					case replyChan <- Reply[Result]{
 						Error: ReplyUnmarshalError{unmarshalErr},
+					}:
+						verifhook.At("requestreply.listen.sent", string(params.OperationID), "unmarshal")
+					case <-ctx.Done():
+						// the caller is gone; the next iteration finishes the listener
 					}
-					verifhook.At("requestreply.listen.sent", string(params.OperationID), "unmarshal")
 				} else if ok {
 					verifhook.At("requestreply.listen.before_send", string(params.OperationID), "reply")
-					replyChan <- Reply[Result]{
+					select {
+					case replyChan <- Reply[Result]{
 						HandlerResult:       resp.HandlerResult,
 						Error:               resp.Error,
 						NotificationMessage: notifyMsg,
+					}:
+						verifhook.At("requestreply.listen.sent", string(params.OperationID), "reply")
+					case <-ctx.Done():
 					}
-					verifhook.At("requestreply.listen.sent", string(params.OperationID), "reply")
 				}
 
 				// we assume that more messages may arrive (in case of fan-out commands handling) - we don't exit yet
